@@ -20,7 +20,8 @@ HERE = os.path.dirname(os.path.dirname(os.path.abspath(__file__)))
 PATH = os.path.join(HERE, "known_findings.json")
 
 _SAFE = {"len": len, "abs": abs, "min": min, "max": max, "all": all, "any": any, "range": range, "sum": sum,
-         "list": list, "True": True, "False": False, "None": None, "isinstance": isinstance, "int": int, "str": str}
+         "list": list, "zip": zip, "enumerate": enumerate, "sorted": sorted, "set": set, "tuple": tuple, "bool": bool,
+         "True": True, "False": False, "None": None, "isinstance": isinstance, "int": int, "str": str}
 
 _CACHE = {}
 
